@@ -120,6 +120,73 @@ class StoreCfg:
         return storesys.StoreSys(label=self.label, **self.kw)
 
 
+def _explore_child(conn, plan, workers):
+    cfg, depth, max_states, budget, seed_h = plan
+    try:
+        factory = cfg.make if hasattr(cfg, "make") else (lambda cfg=cfg: davsys.DavSys(cfg))
+        res = explore.explore(factory, max_depth=depth, workers=workers, max_states=max_states, seed_histories=seed_h, budget_s=budget)
+        res.state_hists = {}
+        conn.send(res)
+    except BaseException as e:  # noqa: BLE001 - reported by the parent as a harness error
+        import traceback
+
+        r = explore.Result()
+        r.errors.append("exploration of %s died: %s\n%s" % (getattr(cfg, "label", cfg), e, traceback.format_exc()))
+        r.histories = [[], []]
+        conn.send(r)
+    finally:
+        conn.close()
+
+
+def _explore_all(plans, workers):
+    """Explore the configurations, a few at a time, each in its own child process with its own worker pool.
+
+    The early BFS levels of a configuration are narrow (1, then ~10-40 states) and leave most cores idle; running
+    several configurations side by side fills them.  XV_SEQ=1 restores one-after-the-other exploration in this process.
+    """
+    import multiprocessing as mp
+    import os
+
+    total = workers or 16
+    if os.environ.get("XV_SEQ") or len(plans) <= 1:
+        out = []
+        for (cfg, depth, max_states, budget, seed_h) in plans:
+            factory = cfg.make if hasattr(cfg, "make") else (lambda cfg=cfg: davsys.DavSys(cfg))
+            out.append(explore.explore(factory, max_depth=depth, workers=total, max_states=max_states, seed_histories=seed_h, budget_s=budget))
+        return out
+    width = min(3, len(plans))
+    per = max(4, (total + width - 1) // width + 2)
+    ctx = mp.get_context("fork")
+    results = [None] * len(plans)
+    running = {}
+    nxt = 0
+    while nxt < len(plans) or running:
+        while nxt < len(plans) and len(running) < width:
+            a, b = ctx.Pipe(duplex=False)
+            pr = ctx.Process(target=_explore_child, args=(b, plans[nxt], per))
+            pr.start()
+            b.close()
+            running[nxt] = (pr, a)
+            nxt += 1
+        import multiprocessing.connection as mpc
+
+        ready = mpc.wait([c for (_p, c) in running.values()])
+        for i in list(running):
+            pr, c = running[i]
+            if c in ready:
+                try:
+                    results[i] = c.recv()
+                except EOFError:
+                    r = explore.Result()
+                    r.errors.append("exploration child for %s exited without a result" % getattr(plans[i][0], "label", i))
+                    r.histories = [[], []]
+                    results[i] = r
+                c.close()
+                pr.join()
+                del running[i]
+    return results
+
+
 def run_configs(prop, tier, configs, depth_of, workers=None, level="model_checking", assumptions=None, rule=None, post=None, min_success=1, faults=None, seeds=None, extra=None):
     """Explore every config; collect violations of `prop` only."""
     rep = Reporter(prop, tier)
@@ -130,14 +197,16 @@ def run_configs(prop, tier, configs, depth_of, workers=None, level="model_checki
     outcomes = {}
     caps = []
     fix_all = True
+    plans = []
     for cfg in configs:
         dd = depth_of(cfg)
         depth, max_states = dd[0], dd[1]
         # thorough runs are bounded in wall time per configuration (reported as a cap); quick runs only by depth
         budget = dd[2] if len(dd) > 2 else (None if tier == "quick" else 90)
-        factory = cfg.make if hasattr(cfg, "make") else (lambda cfg=cfg: davsys.DavSys(cfg))
         seed_h = seeds(cfg) if seeds else ()
-        res = explore.explore(factory, max_depth=depth, workers=workers, max_states=max_states, seed_histories=seed_h, budget_s=budget)
+        plans.append((cfg, depth, max_states, budget, seed_h))
+    results = _explore_all(plans, workers)
+    for (cfg, depth, max_states, budget, seed_h), res in zip(plans, results):
         for e in res.errors:
             rep.harness_error(e[:2000])
         for sig, e in res.violations.items():
